@@ -23,12 +23,12 @@ Proof. exact rows_old_refuted. Qed.
 
 (* nr with dr gives cutoff = (nr-1)*dr (the IEEE product of float(nr-1) and dr); cutoff with nr is kept (dr = cutoff/(nr-1) is
    taken by the writers, C01/C03/C19 grid theorems); cutoff with dr gives nr = round(cutoff/dr) + 1 *)
-Theorem c11_nr_dr : forall n d, (0 < n)%Z -> le0 d = false -> le0 (cutoff_of n d) = false ->
+Theorem c11_nr_dr : forall n d, (1 < n)%Z -> le0 d = false -> le0 (cutoff_of n d) = false ->
   init_cutoff (Some n) (Some d) None = Ok (Some n, Some (cutoff_of n d)).
 Proof. exact nr_dr_gives_cutoff. Qed.
-Theorem c11_cutoff_nr : forall n c, (0 < n)%Z -> le0 c = false -> init_cutoff (Some n) None (Some c) = Ok (Some n, Some c).
+Theorem c11_cutoff_nr : forall n c, (1 < n)%Z -> le0 c = false -> init_cutoff (Some n) None (Some c) = Ok (Some n, Some c).
 Proof. exact cutoff_nr_kept. Qed.
-Theorem c11_cutoff_dr : forall c d n, le0 c = false -> le0 d = false -> nr_of c d = Some n -> (0 < n)%Z ->
+Theorem c11_cutoff_dr : forall c d n, le0 c = false -> le0 d = false -> nr_of c d = Some n -> (1 < n)%Z ->
   init_cutoff None (Some d) (Some c) = Ok (Some n, Some c).
 Proof. exact cutoff_dr_gives_nr. Qed.
 
@@ -38,7 +38,7 @@ Proof. exact all_three_rejected. Qed.
 Theorem c11_reject_step_alone : forall d, init_cutoff None (Some d) None = CfgErr.
 Proof. exact step_alone_rejected. Qed.
 Theorem c11_reject_nonpositive : forall n d c nr dr cutoff,
-  ((n <= 0)%Z -> init_cutoff (Some n) dr cutoff = CfgErr) /\
+  ((n <= 1)%Z -> init_cutoff (Some n) dr cutoff = CfgErr) /\
   (le0 d = true -> init_cutoff nr (Some d) cutoff = CfgErr) /\
   (le0 c = true -> init_cutoff nr dr (Some c) = CfgErr).
 Proof. intros. repeat split; [apply nonpositive_nr_rejected|apply nonpositive_dr_rejected|apply nonpositive_cutoff_rejected]. Qed.
